@@ -31,7 +31,9 @@ def contracts(maxt):
     laminar = ("(tokens[g_t].end == -1 ? (tokens[g_t].start < tokens[g_u].start - %(qu)s) : "
                "((tokens[g_t].end + %(qt)s <= tokens[g_u].start - %(qu)s) || "
                "((tokens[g_t].type == 1 || tokens[g_t].type == 2) && tokens[g_t].start < tokens[g_u].start - %(qu)s && tokens[g_u].end != -1 && tokens[g_u].end + %(qu)s < tokens[g_t].end)))") % {'qt': tq('g_t'), 'qu': tq('g_u')}
-    common = lambda b: [PI, sizes(b), "0 <= g_t && g_t < g_u && g_u < MAXT", "(g_t < parser->toknext ==> %s)" % tokwf('g_t', b),
+    first = ("((g_fresh && (js[0] == '{' || js[0] == '[')) ==> ((parser->pos == 0 && parser->toknext == 0) || "
+             "(parser->toknext >= 1 && tokens[0].start == 0 && tokens[0].type == (js[0] == '{' ? 1 : 2))))")
+    common = lambda b: [PI, sizes(b), first, "0 <= g_t && g_t < g_u && g_u < MAXT", "(g_t < parser->toknext ==> %s)" % tokwf('g_t', b),
                         "(g_u < parser->toknext ==> (%s && %s))" % (tokwf('g_u', b), laminar),
                         "(g_t >= parser->toknext ==> %s)" % tokeq_entry('g_t')]
     d = {"functions": [
